@@ -2,6 +2,7 @@ package rules
 
 import (
 	"go/constant"
+	"go/token"
 	"go/types"
 	"strings"
 
@@ -722,5 +723,115 @@ func (c *Ctx) ruleCtorFlag(rule string) {
 	} else {
 		c.R.Bad(rule, k, bad, "the constructor of the call error hands out something else than a record made from its arguments",
 			"for that input the flag is ignored: Call reports a handler's error with the flag of whatever error was found inside it, and the error value is not the one the handler returned")
+	}
+}
+
+// R-FIELDIFACE (C04 "no operation panics on a Go value"): reflect refuses to hand out, with Interface(), a value that was
+// obtained from an unexported struct field ("cannot return value obtained from unexported field or method") - while
+// String(), Int(), Uint() work on it. Properties are mapped to struct fields by name, exported or not, and no
+// constructor refuses such a mapping. So wherever package schema calls Interface() on a value that it got out of a
+// struct through reflection in the same function (FieldByIndex / FieldByIndexErr / FieldByName / Field, and what Elem,
+// Convert, Index, Indirect make of it), CanInterface() was found true for a value of that chain on every way there,
+// or the function recovers.
+func (c *Ctx) ruleFieldIface(rule string) {
+	n := 0
+	// fieldSource: the values on the ways from v back to a field lookup (nil if no way leads to one)
+	fieldSource := func(v ssa.Value) []ssa.Value {
+		var chain []ssa.Value
+		found := false
+		seen := map[ssa.Value]bool{}
+		var rec func(v ssa.Value, depth int)
+		rec = func(v ssa.Value, depth int) {
+			if v == nil || seen[v] || depth > 8 {
+				return
+			}
+			seen[v] = true
+			chain = append(chain, v)
+			switch x := v.(type) {
+			case *ssa.Extract:
+				rec(x.Tuple, depth+1)
+			case *ssa.Phi:
+				for _, e := range x.Edges {
+					rec(e, depth+1)
+				}
+			case *ssa.UnOp:
+				// a local variable the value is kept in (its address is handed out, so it lives in a cell)
+				if al, isAlloc := x.X.(*ssa.Alloc); isAlloc && x.Op == token.MUL && al.Referrers() != nil {
+					chain = append(chain, al)
+					for _, r := range *al.Referrers() {
+						if st, isStore := r.(*ssa.Store); isStore && st.Addr == ssa.Value(al) {
+							rec(st.Val, depth+1)
+						}
+					}
+				}
+			case *ssa.Call:
+				switch reflectValueMethod(x) {
+				case "FieldByIndexErr", "FieldByIndex", "FieldByName", "Field":
+					// a field looked up under a constant, exported name (the schema types' own `MinValue`, `ItemsValue`)
+					// can always be handed out
+					if name, isConst := core.ConstString(x.Call.Args[len(x.Call.Args)-1]); isConst && name != "" && token.IsExported(name) {
+						return
+					}
+					found = true
+				case "Elem", "Convert", "Index", "Addr":
+					rec(x.Call.Args[0], depth+1)
+				}
+				if core.StaticCalleeName(&x.Call) == "reflect.Indirect" && len(x.Call.Args) == 1 {
+					rec(x.Call.Args[0], depth+1)
+				}
+			}
+		}
+		rec(v, 0)
+		if !found {
+			return nil
+		}
+		return chain
+	}
+	for _, fn := range c.M.SortedFuncs(c.scopePkg("schema")) {
+		idx := 0
+		for _, b := range fn.Blocks {
+			for _, in := range b.Instrs {
+				call, ok := in.(*ssa.Call)
+				if !ok || reflectValueMethod(call) != "Interface" {
+					continue
+				}
+				chain := fieldSource(call.Call.Args[0])
+				if chain == nil {
+					continue
+				}
+				idx++
+				n++
+				k := key(rule, c.M.Key(fn), sprintf("Interface() #%d on a value read out of a struct field: reflection may hand it out", idx))
+				est := func(cond core.Cond) bool {
+					cc, ok := cond.V.(*ssa.Call)
+					if !ok || !cond.True || reflectValueMethod(cc) != "CanInterface" {
+						return false
+					}
+					for _, v := range chain {
+						if cc.Call.Args[0] == v {
+							return true
+						}
+						if ld, isLoad := cc.Call.Args[0].(*ssa.UnOp); isLoad && ld.X == v {
+							return true // another read of the cell the value is kept in
+						}
+					}
+					return false
+				}
+				switch {
+				case core.MustHold(fn, est)[b]:
+					c.R.Ok(rule, k, c.M.InstrPos(call), "Interface() on a reflected struct field", "CanInterface() of the field value was found true on every way here")
+				case isRecoverScope(fn):
+					c.R.Ok(rule, k, c.M.InstrPos(call), "Interface() on a reflected struct field", "the function recovers")
+				default:
+					c.R.Bad(rule, k, c.M.InstrPos(call), "Interface() on a value that may come from an unexported struct field",
+						"properties are mapped to struct fields by name, exported or not: for a property mapped to an unexported field reflect panics ('cannot return value obtained from unexported field or method') where the operation should return an error")
+				}
+			}
+		}
+	}
+	if n == 0 {
+		// nothing of that shape: the value may be handed to another function before Interface() is called on it (R-UNSETNIL's
+		// CanInterface clause follows the presence function's results); no obligation of this rule then
+		c.R.Info(rule, key(rule, "schema", "Interface() calls on values read out of a struct field in the same function"), "-", "none found", "not decided here")
 	}
 }
